@@ -17,13 +17,15 @@
 //!           concurrently (sharing the VmModules when warm); every thread reports its digests
 //!   fresh : the harness re-executes itself as a child process for the run
 //!
-//! Workload: generated transactions that create many vaults / non-fungible ids / metadata
+//! Workload: a consensus part on an own ledger (custom genesis with five staked validators, fee-paying
+//! round changes with made and missed proposals, three epoch changes with emissions and rewards,
+//! stake-to-all-validators transactions), then generated transactions that create many vaults / non-fungible ids / metadata
 //! entries in ONE transaction, a failing, an unauthorised and a rejected transaction (first, so
 //! that runs executing only a prefix cover them), then repository scenarios (given names, or
 //! all that are valid at the latest protocol version).
 use radix_engine::system::system_db_reader::SystemDatabaseReader;
 use radix_engine::transaction::*;
-use radix_engine::updates::ProtocolBuilder;
+use radix_engine::updates::{BabylonSettings, ProtocolBuilder};
 use radix_engine::vm::DefaultVmModules;
 use radix_engine::blueprints::consensus_manager::*;
 use radix_substate_store_interface::interface::CommittableSubstateDatabase;
@@ -121,6 +123,98 @@ fn execute_copy(run: &RunCfg, shared: &DefaultVmModules, scen: &str, gen: u64) -
         out.push((label, digest(&receipt)));
         receipt
     };
+    // (0) consensus: an own ledger whose genesis has five validators with different stakes; fee-paying
+    // round changes with proposals made and missed (so that emissions and rewards are non-zero and differ per
+    // validator), three epoch changes, and transactions that touch all validators at once.  First in the
+    // sequence: also the runs that execute only a prefix cover it.
+    {
+        let vkeys: Vec<Secp256k1PublicKey> = (0..5u64).map(|i| Secp256k1PrivateKey::from_u64(900 + i).unwrap().public_key()).collect();
+        let staker_key = Secp256k1PrivateKey::from_u64(990).unwrap().public_key();
+        let staker = ComponentAddress::preallocated_account_from_public_key(&staker_key);
+        let config = ConsensusManagerConfig {
+            max_validators: 10,
+            epoch_change_condition: EpochChangeCondition { min_round_count: 4, max_round_count: 4, target_duration_millis: 0 },
+            num_unstake_epochs: 1,
+            total_emission_xrd_per_epoch: dec!(1000),
+            min_validator_reliability: dec!("0.3"),
+            num_owner_stake_units_unlock_epochs: 2,
+            num_fee_increase_delay_epochs: 1,
+            validator_creation_usd_cost: dec!(100),
+        };
+        let settings = BabylonSettings::validators_and_single_staker(
+            vkeys.iter().enumerate().map(|(i, k)| (*k, dec!(1000) * Decimal::from(i as u32 + 1))).collect(),
+            staker,
+            dec!(100000),
+            Epoch::of(1),
+            config,
+        );
+        let mut cdb = InMemorySubstateDatabase::standard();
+        ProtocolBuilder::for_network(&network).configure_babylon(|_| settings).from_bootstrap_to_latest().commit_each_protocol_update(&mut cdb);
+        let cvalidator = TransactionValidator::new(&cdb, &network);
+        let validators: Vec<ComponentAddress> = SystemDatabaseReader::new(&cdb)
+            .read_object_field(CONSENSUS_MANAGER.as_node_id(), ModuleId::Main, ConsensusManagerField::CurrentValidatorSet.field_index())
+            .expect("validator set")
+            .as_typed::<VersionedConsensusManagerCurrentValidatorSet>()
+            .unwrap()
+            .fully_update_and_into_latest_version()
+            .validator_set
+            .validators_by_stake_desc
+            .keys()
+            .cloned()
+            .collect();
+        assert!(validators.len() >= 4, "custom genesis must have several validators");
+        let mut n = 2_000_000u32;
+        let staker_badge = NonFungibleGlobalId::from_public_key(&staker_key);
+        let mut round_in_epoch = 0u64;
+        let mut time_ms = 1i64;
+        for step in 0..14u64 {
+            n += 1;
+            // one round change per step; every third one skips a round (its leader missed the proposal)
+            let gap: Vec<ValidatorIndex> = if step % 3 == 1 { vec![((step + 2) % 5) as ValidatorIndex] } else { vec![] };
+            let round = round_in_epoch + 1 + gap.len() as u64;
+            time_ms += 1000;
+            let m = ManifestBuilder::new()
+                .lock_fee_from_faucet()
+                .call_method(
+                    CONSENSUS_MANAGER,
+                    CONSENSUS_MANAGER_NEXT_ROUND_IDENT,
+                    ConsensusManagerNextRoundInput {
+                        round: Round::of(round),
+                        proposer_timestamp_ms: time_ms,
+                        leader_proposal_history: LeaderProposalHistory { gap_round_leaders: gap, current_leader: (step % 5) as ValidatorIndex, is_fallback: false },
+                    },
+                )
+                .build();
+            let executable = TestTransaction::new_v1_from_nonce(m, n, btreeset![system_execution(SystemExecution::Validator)])
+                .into_executable(&cvalidator)
+                .expect("round change");
+            let receipt = exec(&mut cdb, format!("consensus:round{}", step), ExecutionConfig::for_test_transaction(), executable, &mut out);
+            if out.len() >= run.len {
+                return out;
+            }
+            // the epoch changed when the consensus manager says so (EpochChangeEvent); rounds restart
+            let changed = match &receipt.result {
+                TransactionResult::Commit(c) => c.application_events.iter().any(|(id, _)| id.1 == "EpochChangeEvent"),
+                _ => false,
+            };
+            round_in_epoch = if changed { 0 } else { round };
+            // between the rounds: a transaction that touches every validator (stake to all of them at once)
+            if step % 4 == 2 {
+                n += 1;
+                let mut mb = ManifestBuilder::new().lock_fee_from_faucet().get_free_xrd_from_faucet();
+                for (i, v) in validators.iter().enumerate() {
+                    let name = format!("s{}", i);
+                    mb = mb.take_from_worktop(XRD, dec!(50), &name).stake_validator(*v, &name);
+                }
+                let m = mb.try_deposit_entire_worktop_or_abort(staker, None).build();
+                let executable = TestTransaction::new_v1_from_nonce(m, n, btreeset![staker_badge.clone()]).into_executable(&cvalidator).expect("stake");
+                exec(&mut cdb, format!("consensus:stake-all{}", step), ExecutionConfig::for_test_transaction(), executable, &mut out);
+                if out.len() >= run.len {
+                    return out;
+                }
+            }
+        }
+    }
     // (i) generated transactions FIRST: the runs that execute only a prefix of the sequence (debug
     // information) must cover the transactions that create many vaults / ids / entries at once
     if gen > 0 {
